@@ -72,7 +72,14 @@ func LoadCCache(cpath string) (*CCache, error) {
 }
 
 // Unmarshal a byte slice of credential cache data into CCache type.
-func (c *CCache) Unmarshal(b []byte) error {
+func (c *CCache) Unmarshal(b []byte) (err error) {
+	// The readers below index the data without checking its length: a truncated or malformed
+	// credential cache is reported as an error rather than as a panic.
+	defer func() {
+		if r := recover(); r != nil {
+			err = errors.New("Invalid credential cache data. The data is truncated or malformed")
+		}
+	}()
 	p := 0
 	//The first byte of the file always has the value 5
 	if int8(b[p]) != 5 {
